@@ -46,7 +46,7 @@ def main() -> int:
         if rc and base == "HEAD":
             # the refactoring was written against an older commit: evaluate it there
             sh(f"git -C /repo worktree remove --force {wt}")
-            base = "35b6ddd"
+            base = "b97578d"
             sh(f"git -C /repo worktree add -q --detach {wt} {base}")
             rc, out = sh(f"git apply {diff}", cwd=wt)
         res["base"] = base
